@@ -147,6 +147,7 @@ struct Choices {
     int xy_split = 0;            // >0: split XY lists into records of at most this many points
     bool text_path_records = false;  // PATHTYPE/WIDTH inside TEXT
     bool font_bits = false;      // font bits set in PRESENTATION
+    int abs_bits = 0;            // STRANS bits 1-2 (absolute magnification / angle): flagged as unsupported, nothing else changes
     bool aref = true;            // lattices as AREF where the model has a regular repetition
     uint16_t version = 600;
     std::array<uint16_t, 12> lib_ts{{2020, 1, 2, 3, 4, 5, 2021, 6, 7, 8, 9, 10}};
